@@ -4,6 +4,12 @@
 #include <libxml/parser.h>
 #include <libxml/tree.h>
 
+#include <algorithm>
+#include <cfloat>
+#include <cmath>
+#include <cstdio>
+#include <functional>
+
 #include "gen.h"
 #include "prop.h"
 #include "spec.h"
@@ -15,7 +21,7 @@ namespace {
 
 bool needsEscaping(const std::string &s)
 {
-    return s.find_first_of("&<>\"'") != std::string::npos;
+    return s.find_first_of("&<>\"'\t\n\r") != std::string::npos;
 }
 
 // Localisation for the known "no escaping" family: which attribute of the spec first carries a character that needs escaping.
@@ -105,7 +111,7 @@ bool wellFormedModel20(const std::string &s, std::string &why)
 {
     xmlSetGenericErrorFunc(nullptr, silent);
     xmlSetStructuredErrorFunc(nullptr, nullptr);
-    xmlDocPtr d = xmlReadMemory(s.c_str(), static_cast<int>(s.size()), "p.xml", nullptr, XML_PARSE_NOERROR | XML_PARSE_NOWARNING | XML_PARSE_NONET);
+    xmlDocPtr d = xmlReadMemory(s.c_str(), static_cast<int>(s.size()), "p.xml", nullptr, XML_PARSE_NOERROR | XML_PARSE_NOWARNING | XML_PARSE_NONET | XML_PARSE_HUGE);
     if (d == nullptr) {
         why = "not well-formed";
         return false;
@@ -119,16 +125,412 @@ bool wellFormedModel20(const std::string &s, std::string &why)
     return ok;
 }
 
+
+// ---------------------------------------------------------------------------------------------------------------
+// Extensions (independent exploration): dimensions of the statement's domain that genValidModel does not draw. They
+// are applied through the public API after buildApi (E3 replaces the model by a parsed one), are selected by the very
+// first tape value (so that tapes recorded before they existed decode to the same case: an extension-free case reads
+// the tape exactly as before).
+enum Ext
+{
+    EXT_NONE = 0,
+    EXT_DEEP_ENCAPSULATION, // a chain of 255..320 nested components
+    EXT_DEEP_MATH, // a left-nested sum up to the depth the validator accepts
+    EXT_ANCESTOR_NS, // document with xmlns:cellml (and optionally a MathML prefix) declared on <model>, parsed
+    EXT_REALS_17, // exponents / multipliers that need 16 or 17 significant digits
+    EXT_NONFINITE, // inf / nan exponent or multiplier
+    EXT_CONNECTION_ID_CHANGED, // connection id changed after creation, two pairs per component pair sharing a variable
+    EXT_WS_CONTROL, // class B: tab / line feed / carriage return in attribute text
+};
+
+const char *extName(Ext e)
+{
+    switch (e) {
+    case EXT_DEEP_ENCAPSULATION: return "deep-encapsulation";
+    case EXT_DEEP_MATH: return "deep-math";
+    case EXT_ANCESTOR_NS: return "ancestor-namespaces";
+    case EXT_REALS_17: return "reals-17-digits";
+    case EXT_NONFINITE: return "nonfinite-reals";
+    case EXT_CONNECTION_ID_CHANGED: return "connection-id-changed";
+    case EXT_WS_CONTROL: return "ws-control-chars";
+    default: return "none";
+    }
+}
+
+// Parameters of an extension: a deterministic stream derived from ONE tape value drawn right after the selector (the
+// generator and buildApi may use up a short tape; seed 0 = every choice 0 = the simplest parameters).
+struct SeedSrc: Src
+{
+    uint64_t state;
+    explicit SeedSrc(uint64_t seed)
+        : state(seed)
+    {
+    }
+protected:
+    uint64_t raw(uint64_t n) override
+    {
+        if (state == 0) {
+            return 0;
+        }
+        state += 0x9e3779b97f4a7c15ULL;
+        uint64_t z = state;
+        z = (z ^ (z >> 30)) * 0xbf58476d1ce4e5b9ULL;
+        z = (z ^ (z >> 27)) * 0x94d049bb133111ebULL;
+        z ^= z >> 31;
+        return z % n;
+    }
+};
+
+const std::string MATHML_NS = "http://www.w3.org/1998/Math/MathML";
+const std::string CELLML_NS = "http://www.cellml.org/cellml/2.0#";
+
+std::string visible(const std::string &s)
+{
+    std::string o;
+    for (char ch : s) {
+        switch (ch) {
+        case '\t': o += "\\t"; break;
+        case '\n': o += "\\n"; break;
+        case '\r': o += "\\r"; break;
+        default: o += ch;
+        }
+    }
+    return o;
+}
+
+std::string hexReal(double v)
+{
+    if (std::isnan(v)) {
+        return "nan";
+    }
+    char buf[64];
+    snprintf(buf, sizeof buf, "%a", v);
+    return buf;
+}
+
+// Exact (bit level) view of every exponent / multiplier, order-insensitive: dumpModel compares 15 digits only.
+std::string exactReals(const ModelPtr &m)
+{
+    std::vector<std::string> lines;
+    for (size_t i = 0; i < m->unitsCount(); ++i) {
+        auto u = m->units(i);
+        for (size_t k = 0; k < u->unitCount(); ++k) {
+            std::string ref, prefix, id;
+            double e = 1.0, mu = 1.0;
+            u->unitAttributes(k, ref, prefix, e, mu, id);
+            lines.push_back("units " + u->name() + " unit ref " + ref + " prefix=" + prefix + " id=" + id + " exponent=" + hexReal(e) + " (" + fmtDouble(e) + ") multiplier=" + hexReal(mu) + " (" + fmtDouble(mu) + ")\n");
+        }
+    }
+    std::sort(lines.begin(), lines.end());
+    std::string o;
+    for (const auto &l : lines) {
+        o += l;
+    }
+    return o;
+}
+
+// Every element name of a MathML string gets the prefix "mml:" and loses the default namespace declaration.
+std::string prefixMathml(const std::string &math)
+{
+    std::string o;
+    for (size_t i = 0; i < math.size(); ++i) {
+        o += math[i];
+        if (math[i] == '<' && i + 1 < math.size()) {
+            if (math[i + 1] == '/') {
+                o += "/mml:";
+                ++i;
+            } else if (isalpha(static_cast<unsigned char>(math[i + 1])) != 0) {
+                o += "mml:";
+            }
+        }
+    }
+    const std::string decl = "xmlns=\"" + MATHML_NS + "\"";
+    size_t p;
+    while ((p = o.find(decl)) != std::string::npos) {
+        o.erase(p, decl.size());
+    }
+    return o;
+}
+
+std::string eraseAll(std::string s, const std::string &what)
+{
+    size_t p;
+    while ((p = s.find(what)) != std::string::npos) {
+        s.erase(p, what.size());
+    }
+    return s;
+}
+
+std::string insertWs(Src &src, const std::string &s)
+{
+    static const std::vector<std::string> ws = {"\t", "\n", "\r", "\r\n", " \t", "\n\n"};
+    std::string w = src.pick(ws);
+    switch (src.below(3)) {
+    case 0: return s + w; // trailing
+    case 1: return w + s; // leading
+    default:
+        if (!s.empty() && static_cast<unsigned char>(s[0]) < 0x80) {
+            return s.substr(0, 1) + w + s.substr(1);
+        }
+        return s + w + "z";
+    }
+}
+
 void run(Src &src, Case &c)
 {
     xmlKeepBlanksDefault(1); // hidden-state reset (see DESIGN 2.7)
-    bool classB = src.flip(25);
+    // One value decides class and extension: < 75 class A (40..74 with one of six extensions), >= 75 class B (90..99 with
+    // tab / LF / CR in attribute text). Same consumption and the same class A / B split as the former flip(25).
+    const unsigned k = static_cast<unsigned>(src.below(100));
+    bool classB = k >= 75;
+    Ext ext = EXT_NONE;
+    if (k >= 40 && k < 75) {
+        ext = static_cast<Ext>(EXT_DEEP_ENCAPSULATION + (k - 40) % 6);
+    } else if (k >= 90) {
+        ext = EXT_WS_CONTROL;
+    }
+    SeedSrc es(ext != EXT_NONE ? src.below(1ULL << 32) : 0);
     GenOpts opt;
     opt.hostileText = classB;
     ModelSpec spec = genValidModel(src, opt);
+    if (ext == EXT_ANCESTOR_NS) {
+        // a reset whose values carry cellml:units, so that both loaders of math (component, reset child) are met
+        CompSpec rc;
+        rc.name = "c02_reset";
+        VarSpec x, t;
+        x.name = "x";
+        x.units = "second";
+        x.initial = "0";
+        t.name = "t";
+        t.units = "second";
+        rc.vars = {x, t};
+        ResetSpec r;
+        r.var = 0;
+        r.testVar = 1;
+        r.hasOrder = true;
+        r.order = 1;
+        r.testValue = mathBlockRaw("<cn cellml:units=\"second\">1</cn>", 0);
+        r.resetValue = mathBlockRaw("<apply><plus/><ci>x</ci><cn cellml:units=\"second\">2</cn></apply>", 0);
+        rc.resets.push_back(r);
+        rc.math.push_back(mathBlockRaw("<apply><eq/><ci>t</ci><cn cellml:units=\"second\">3</cn></apply>", 0));
+        spec.comps.push_back(rc);
+    }
     Built b = buildApi(spec, &src);
     ModelPtr m = b.model;
+    std::string extText;
+    bool nonfinite = false;
+    switch (ext) {
+    case EXT_DEEP_ENCAPSULATION: {
+        static const std::vector<int> depths = {256, 257, 255, 300, 320};
+        int depth = es.pick(depths);
+        ComponentPtr prev;
+        for (int i = 0; i < depth; ++i) {
+            auto comp = Component::create("c02_deep_" + std::to_string(i));
+            if (prev == nullptr) {
+                m->addComponent(comp);
+            } else {
+                prev->addComponent(comp);
+            }
+            prev = comp;
+        }
+        extText = "chain of " + std::to_string(depth) + " nested components c02_deep_<i>";
+        break;
+    }
+    case EXT_DEEP_MATH: {
+        static const std::vector<int> depths = {253, 254, 252, 251, 200};
+        int depth = es.pick(depths);
+        bool inReset = es.flip(30); // two more levels of the document around the math
+        if (inReset) {
+            depth -= 2;
+        }
+        auto comp = Component::create("c02_math");
+        auto y = Variable::create("y");
+        y->setUnits("dimensionless");
+        comp->addVariable(y);
+        std::string e = "<ci>y</ci>";
+        for (int i = 0; i < depth; ++i) {
+            e = "<apply><plus/>" + e + "<ci>y</ci></apply>";
+        }
+        if (inReset) {
+            auto x = Variable::create("x");
+            x->setUnits("dimensionless");
+            x->setInitialValue("0");
+            comp->addVariable(x);
+            auto r = Reset::create();
+            r->setVariable(x);
+            r->setTestVariable(y);
+            r->setOrder(1);
+            r->setTestValue("<math xmlns=\"" + MATHML_NS + "\"><ci>y</ci></math>");
+            r->setResetValue("<math xmlns=\"" + MATHML_NS + "\">" + e + "</math>");
+            comp->addReset(r);
+        } else {
+            comp->setMath("<math xmlns=\"" + MATHML_NS + "\"><apply><eq/><ci>y</ci>" + e + "</apply></math>");
+        }
+        m->addComponent(comp);
+        extText = "component c02_math with a left-nested sum of depth " + std::to_string(depth) + (inReset ? " as reset value" : " as math");
+        break;
+    }
+    case EXT_ANCESTOR_NS: {
+        // The same content as a document that declares the prefixes once, on <model> (the usual layout of CellML files),
+        // read by the strict parser: the parsed model is the model under test.
+        bool prefixed = es.flip(40);
+        ModelSpec docSpec = spec;
+        if (prefixed) {
+            for (auto &cs : docSpec.comps) {
+                for (auto &mm : cs.math) {
+                    mm = prefixMathml(mm);
+                }
+                for (auto &r : cs.resets) {
+                    r.testValue = prefixMathml(r.testValue);
+                    r.resetValue = prefixMathml(r.resetValue);
+                }
+            }
+        }
+        XmlOptions xo;
+        std::string doc = eraseAll(writeXml(docSpec, xo), "xmlns:cellml=\"" + CELLML_NS + "\"");
+        size_t at = doc.find("<model");
+        if (at != std::string::npos) {
+            doc.insert(at + 6, " xmlns:cellml=\"" + CELLML_NS + "\"" + (prefixed ? " xmlns:mml=\"" + MATHML_NS + "\"" : std::string()));
+        }
+        auto p0 = Parser::create(true);
+        ModelPtr parsed = p0->parseModel(doc);
+        if (parsed != nullptr && p0->issueCount() == 0) {
+            m = parsed;
+            extText = std::string("model parsed from the document with xmlns:cellml") + (prefixed ? " and xmlns:mml (prefixed MathML)" : "") + " declared on <model>";
+        } else {
+            c.count("ancestor_ns_document_rejected");
+            ext = EXT_NONE;
+        }
+        break;
+    }
+    case EXT_REALS_17:
+    case EXT_NONFINITE: {
+        static const std::vector<double> hard = {1.0 / 3.0, 0.1 + 0.2, 1.0000000000000002, 123456789012345678.0, DBL_MAX, 5e-324, 2.2250738585072014e-308,
+                                                 9007199254740993.0, 1e23, 2.0 / 3.0, -1.0 / 3.0, 0.1, 1.7976931348623155e308, 4.35, 0.3};
+        static const std::vector<double> bad = {INFINITY, NAN, -INFINITY};
+        static const std::vector<std::string> refs = {"second", "metre", "kilogram", "ampere"};
+        nonfinite = ext == EXT_NONFINITE;
+        auto u = Units::create(nonfinite ? "c02_nonfinite" : "c02_reals");
+        size_t n = 1 + es.below(3);
+        for (size_t i = 0; i < n; ++i) {
+            auto real = [&]() -> double {
+                if (es.flip(40)) {
+                    // any double of moderate magnitude: 52 random mantissa bits
+                    uint64_t hi = es.below(1ULL << 26), lo = es.below(1ULL << 26);
+                    double mant = 1.0 + static_cast<double>((hi << 26) | lo) / 4503599627370496.0;
+                    return std::ldexp(es.flip(20) ? -mant : mant, es.range(-40, 40));
+                }
+                return es.pick(hard);
+            };
+            double e = es.flip(50) ? real() : 1.0;
+            double mu = es.flip(70) ? real() : 1.0;
+            if (nonfinite && i == 0) {
+                if (es.flip(50)) {
+                    e = es.pick(bad);
+                } else {
+                    mu = es.pick(bad);
+                }
+            }
+            u->addUnit(refs[i % refs.size()], "", e, mu);
+            extText += (i == 0 ? "" : "; ") + std::string("unit ") + refs[i % refs.size()] + " exponent " + hexReal(e) + " multiplier " + hexReal(mu);
+        }
+        m->addUnits(u);
+        extText = "units " + u->name() + ": " + extText;
+        break;
+    }
+    case EXT_CONNECTION_ID_CHANGED: {
+        // a{p,q} and b{r} with p~r and q~r: two pairs of one connection that share a variable
+        auto ca = Component::create("c02_a");
+        auto cb = Component::create("c02_b");
+        auto mk = [](const std::string &name) {
+            auto v = Variable::create(name);
+            v->setUnits("second");
+            v->setInterfaceType("public");
+            return v;
+        };
+        auto vp = mk("p"), vq = mk("q"), vr = mk("r");
+        ca->addVariable(vp);
+        ca->addVariable(vq);
+        cb->addVariable(vr);
+        m->addComponent(ca);
+        m->addComponent(cb);
+        bool idAtCreation = es.flip(50);
+        Variable::addEquivalence(vp, vr, "", idAtCreation ? "c02_first" : "");
+        Variable::addEquivalence(vq, vr, "", idAtCreation ? "c02_first" : "");
+        if (!idAtCreation) {
+            Variable::setEquivalenceConnectionId(vp, vr, "c02_first");
+        }
+        unsigned which = static_cast<unsigned>(es.below(4));
+        VariablePtr s1 = (which & 1U) != 0 ? vp : vq, s2 = vr;
+        if ((which & 2U) != 0) {
+            std::swap(s1, s2);
+        }
+        Variable::setEquivalenceConnectionId(s1, s2, "c02_second");
+        extText = "components c02_a{p,q} c02_b{r}, p~r, q~r, connection id c02_first " + std::string(idAtCreation ? "given to addEquivalence" : "set on (p,r)") + ", then setEquivalenceConnectionId(" + s1->name() + ", " + s2->name() + ", c02_second)";
+        // the same on a connection of the generated model that has several mappings
+        for (size_t ci = 0; ci < spec.conns.size(); ++ci) {
+            const auto &cn = spec.conns[ci];
+            if (cn.maps.size() >= 2 && es.flip(50)) {
+                const auto &mp = cn.maps[es.below(cn.maps.size())];
+                std::string nid = "c02_changed_" + std::to_string(ci);
+                Variable::setEquivalenceConnectionId(b.vars[static_cast<size_t>(cn.c1)][static_cast<size_t>(mp.v1)], b.vars[static_cast<size_t>(cn.c2)][static_cast<size_t>(mp.v2)], nid);
+                extText += "; connection " + std::to_string(ci) + " id changed to " + nid + " through mapping (" + std::to_string(mp.v1) + "," + std::to_string(mp.v2) + ")";
+            }
+        }
+        break;
+    }
+    case EXT_WS_CONTROL: {
+        auto change = [&](const std::string &what, const std::string &old, const std::function<void(const std::string &)> &set, unsigned pct) {
+            if (!es.flip(pct)) {
+                return;
+            }
+            std::string n = insertWs(es, old);
+            set(n);
+            extText += what + " -> \"" + visible(n) + "\"; ";
+        };
+        change("model id", m->id().empty() ? "c02 id" : m->id(), [&](const std::string &v) { m->setId(v); }, 100);
+        change("model name", m->name(), [&](const std::string &v) { m->setName(v); }, 30);
+        for (auto &is : b.imports) {
+            change("import href", is->url(), [&](const std::string &v) { is->setUrl(v); }, 50);
+            if (!is->id().empty()) {
+                change("import id", is->id(), [&](const std::string &v) { is->setId(v); }, 30);
+            }
+        }
+        for (size_t ci = 0; ci < b.comps.size(); ++ci) {
+            auto &comp = b.comps[ci];
+            change("component name", comp->name(), [&](const std::string &v) { comp->setName(v); }, 30);
+            if (!comp->id().empty()) {
+                change("component id", comp->id(), [&](const std::string &v) { comp->setId(v); }, 30);
+            }
+            if (spec.comps[ci].import >= 0) {
+                change("component_ref", comp->importReference(), [&](const std::string &v) { comp->setImportReference(v); }, 30);
+                continue;
+            }
+            for (auto &var : b.vars[ci]) {
+                if (!var->id().empty()) {
+                    change("variable id", var->id(), [&](const std::string &v) { var->setId(v); }, 30);
+                }
+                if (!var->initialValue().empty() && es.flip(30)) {
+                    // only text that names no sibling variable
+                    bool names = false;
+                    for (auto &o : b.vars[ci]) {
+                        names = names || o->name() == var->initialValue();
+                    }
+                    if (!names) {
+                        change("initial value", var->initialValue(), [&](const std::string &v) { var->setInitialValue(v); }, 100);
+                    }
+                }
+            }
+        }
+        break;
+    }
+    default: break;
+    }
     c.text = (classB ? std::string("class B (XML character data)\n") : std::string("class A (valid by construction)\n")) + specToText(spec);
+    if (ext != EXT_NONE) {
+        c.text += "extension " + std::string(extName(ext)) + ": " + extText + "\n";
+        c.cls(std::string("ext:") + extName(ext));
+    }
     c.hash = hashStr(c.text);
     c.weight = c.text.size();
 
@@ -152,7 +554,10 @@ void run(Src &src, Case &c)
         features += f ? 1 : 0;
     }
     std::string unescaped = firstUnescaped(spec);
-    c.nontrivial = features >= 2 || (classB && !unescaped.empty());
+    if (ext == EXT_WS_CONTROL && unescaped.empty()) {
+        unescaped = "ws-control";
+    }
+    c.nontrivial = features >= 2 || (classB && !unescaped.empty()) || ext != EXT_NONE;
     c.cls(classB ? "class-B" : "class-A");
     if (hasUnitChildren) c.cls("unit-children");
     if (hasMulti) c.cls("multi-map-connection");
@@ -186,11 +591,25 @@ void run(Src &src, Case &c)
     }
     VP_CHECK(c, dumpModel(m) == before, "C02.input-modified|Printer", firstDiff(before, dumpModel(m)));
     if (s.empty()) {
-        c.fail("C02.empty|" + (unescaped.empty() ? std::string("no-special-characters") : "unescaped:" + unescaped), "printModel returned an empty string; printer issues: " + dumpIssues(printer));
+        c.fail("C02.empty|" + (ext != EXT_NONE ? std::string("ext:") + extName(ext) : (unescaped.empty() ? std::string("no-special-characters") : "unescaped:" + unescaped)),
+               "printModel returned an empty string; printer issues: " + dumpIssues(printer));
         return;
     }
     std::string why;
     VP_CHECK(c, wellFormedModel20(s, why), "C02.malformed|" + why, s.substr(0, 600));
+    if (nonfinite) {
+        // An infinite or undefined exponent / multiplier has no CellML representation ("inf" / "nan" are not real number
+        // strings): such a model cannot be in the validator-accepted class. The validator has to say so about these units.
+        auto v = Validator::create();
+        v->validateModel(m);
+        bool reported = false;
+        for (size_t i = 0; i < v->issueCount(); ++i) {
+            reported = reported || v->issue(i)->description().find("c02_nonfinite") != std::string::npos;
+        }
+        VP_CHECK(c, reported, "C02.nonfinite|validator-silent", "the validator raises no issue about units c02_nonfinite (" + extText + "), the printed document is not readable:\n" + s.substr(0, 1500));
+        return;
+    }
+    const std::string realsBefore = exactReals(m);
     auto parser = Parser::create(true);
     ModelPtr m2 = parser->parseModel(s);
     {
@@ -210,11 +629,17 @@ void run(Src &src, Case &c)
             }
         }
         std::string loc = kind;
-        if (!unescaped.empty()) {
+        if (ext != EXT_NONE) {
+            loc += std::string("|ext:") + extName(ext);
+        } else if (!unescaped.empty()) {
             loc += "|unescaped:" + unescaped;
         }
         c.fail("C02.content|" + loc, diff + "\n--- printed ---\n" + s.substr(0, 3000));
         return;
+    }
+    {
+        std::string realsAfter = exactReals(m2);
+        VP_CHECK(c, realsAfter == realsBefore, "C02.content|unit real value", firstDiff(realsBefore, realsAfter) + "\n--- printed ---\n" + s.substr(0, 3000));
     }
     if (!classB) {
         auto printer2 = Printer::create();
@@ -242,10 +667,13 @@ Property property = {
     "rapidcheck tapes drive a valid-by-construction CellML 2.0 model generator (class A) and the same shapes with arbitrary XML character data in names/ids/hrefs (class B); "
     "each model is built through the API in a tape-chosen insertion order, printed, checked for well-formedness with libxml2 in the harness, re-parsed strictly and compared by an "
     "independent order-insensitive dump with canonical MathML; validator-clean models additionally need zero parser issues and a second trip that is a fixed point. "
-    "Non-trivial: at least two of {unit children, connection with >= 2 mappings, reset, import, math, encapsulation depth >= 2}, or (class B) a string that needs escaping. Distinct = hash of the spec text.",
+    "Extensions applied through the API to about a third of the cases: encapsulation 255-320 deep, math nested up to the validator's limit, a document with the namespace prefixes declared on <model> read by the parser as the model under test, "
+    "exponents / multipliers needing 16-17 digits, non-finite ones, a connection id changed after creation where two mappings share a variable, tab / LF / CR in attribute text. "
+    "Non-trivial: at least two of {unit children, connection with >= 2 mappings, reset, import, math, encapsulation depth >= 2}, or (class B) a string that needs escaping, or an extension. Distinct = hash of the spec text.",
     run,
     nullptr,
-    {"libxml2 2.13.9 as linked by the baseline build", "tab/newline/carriage return are not generated in attribute text (attribute value normalisation is outside the statement)",
-     "doubles compared to 15 significant digits"},
+    {"libxml2 2.13.9 as linked by the baseline build",
+     "a model holding an infinite or undefined exponent / multiplier is only required to be reported by the validator (the value has no CellML representation)",
+     "exponents and multipliers are compared exactly (hexadecimal float), other doubles to 15 significant digits"},
 };
 }
